@@ -8,6 +8,13 @@
 //!   -> W=<result per op> C=<ok|err of close> F=<len>.<fnv1a64 of the file after drop>
 //!   bw <caphex> <pol> <op>...     the same on a bare std::io::BufWriter<File>: w:<data> (write_all)  f (flush)  l:..
 //!   -> R=<result per op> F=<len>.<fnv1a64 of the file after the BufWriter was dropped>
+//!   fin <dir> <params> <limithex|inf>   the whole create pipeline in-process, driven the way ragc-cli's create_archive
+//!     drives it (harness/src/mk.rs: StreamingQueueCompressor::with_splitters, push, drain, sync_and_flush, finalize) on
+//!     the FASTA files listed in <dir>/order.txt, output file <dir>/out-<pid>.agc, limit set after the inputs were listed
+//!   -> E=<ok|err of create, i.e. of finalize> F=<len>.<fnv1a64> (limit inf: the file is kept as <dir>/full-<pid>.agc
+//!      and its path is printed as P=<path>)
+#[path = "../mk.rs"]
+mod mk;
 #[path = "../runner.rs"]
 mod runner;
 #[path = "../util.rs"]
@@ -190,6 +197,35 @@ pub fn run(t: &[&str]) -> String {
             let _ = std::fs::remove_file(&path);
             let _ = std::fs::remove_dir(&d);
             out
+        }
+        ["fin", dir, params, lim] => {
+            // the pipeline prints debug lines to stderr even at verbosity 0; under the limit a stderr that is a
+            // regular file would make eprintln! panic, and a shared pipe would mix into the result lines
+            unsafe {
+                let dn = libc::open(b"/dev/null\0".as_ptr() as *const libc::c_char, libc::O_WRONLY);
+                if dn >= 0 {
+                    libc::dup2(dn, 2);
+                    libc::close(dn);
+                }
+            }
+            let p = mk::Params::parse(params);
+            let inputs = mk::case_inputs(dir);
+            let out = format!("{}/out-{}.agc", dir, std::process::id());
+            let _ = std::fs::remove_file(&out);
+            let limit = if *lim == "inf" { None } else { Some(h64(lim)) };
+            set_limit(limit);
+            let r = mk::create(&out, &inputs, &p);
+            set_limit(None);
+            let sig = if std::path::Path::new(&out).exists() { file_sig(&out) } else { "none".into() };
+            let mut line = format!("E={} F={}", ok_s(&r), sig);
+            if limit.is_none() {
+                let keep = format!("{}/full-{}.agc", dir, std::process::id());
+                let _ = std::fs::rename(&out, &keep);
+                line.push_str(&format!(" P={}", keep));
+            } else {
+                let _ = std::fs::remove_file(&out);
+            }
+            line
         }
         _ => "HARNESS-ERROR bad case".into(),
     }
